@@ -108,24 +108,30 @@ structure ResF where
   fail  : Option (Nat × String)
   st    : FState
   muOk  : Bool
+  invOk : Bool := true    -- phase 5: at every state "not done ⇒ some step of the code is enabled" and "recv + lost ≤ all outputs"
+
+/-- the conclusions of `deadlock_free_faults` / `stuck_done_faults` / `never_duplicated_faults` on one state -/
+def faultInvOk (c : Cfg) (s : FState) : Bool :=
+  (s.b.main == .done || !stuckF c s) &&
+  (s.b.recv ++ s.lostOuts).all (fun o => s.b.recv.count o + s.lostOuts.count o ≤ (allOuts c).count o)
 
 /-- replay through the fault extension (`enabledF`/`stepF`): `{"a":"wCrash","w":i}` = the process of lineage i died -/
-def replayF (c : Cfg) : Nat → FState → List Json → Bool → Except String ResF
-  | i, s, [], ok => pure ⟨i, none, s, ok⟩
-  | i, s, j :: js, ok => do
+def replayF (c : Cfg) : Nat → FState → List Json → Bool → (iv : Bool := true) → Except String ResF
+  | i, s, [], ok, iv => pure ⟨i, none, s, ok, iv && faultInvOk c s⟩
+  | i, s, j :: js, ok, iv => do
     let isCrash : Bool := (match j.getObjVal? "a" with | .ok (Json.str "wCrash") => true | _ => false)
     let a : ActionF ← (if isCrash then do pure (ActionF.wCrash (← nat (← field j "w"))) else do pure (ActionF.base (← parseAction j)))
-    if !enabledF c s a then pure ⟨i, some (i, "not-enabled"), s, ok⟩ else
+    if !enabledF c s a then pure ⟨i, some (i, "not-enabled"), s, ok, iv⟩ else
     let obsOk : Bool := match a, j.getObjVal? "x" with
       | .base b, .ok v => (match v.getInt? with | .ok x => observed s.b b == some x | .error _ => true)
       | _, _ => true
-    if !obsOk then pure ⟨i, some (i, "value-mismatch"), s, ok⟩ else
+    if !obsOk then pure ⟨i, some (i, "value-mismatch"), s, ok, iv⟩ else
     let s' := stepF c s a
     let npOk : Bool := match j.getObjVal? "np" with
       | .ok v => (match v.getNat? with | .ok x => s'.b.nprocs == x | .error _ => true)
       | .error _ => true
-    if !npOk then pure ⟨i, some (i, "nprocs-mismatch"), s', ok⟩ else
-    replayF c (i + 1) s' js (ok && muF c s' < muF c s && maxTasksOk c s'.b)
+    if !npOk then pure ⟨i, some (i, "nprocs-mismatch"), s', ok, iv⟩ else
+    replayF c (i + 1) s' js (ok && muF c s' < muF c s && maxTasksOk c s'.b) (iv && faultInvOk c s)
 
 structure ResR where
   steps : Nat
@@ -159,6 +165,34 @@ def replayR (c : Cfg) (rw : Bool) : Nat → RState → List Json → Bool → Ex
       | .error _ => true
     if !npOk then pure ⟨i, some (i, "nprocs-mismatch"), s', ok⟩ else
     replayR c rw (i + 1) s' js (ok && muR c s' < muR c s && s'.b.outq == s'.routq.filterMap ROut.proj && maxTasksOk c s'.b)
+
+structure ResRF where
+  steps : Nat
+  fail  : Option (Nat × String)
+  st    : RFState
+  muOk  : Bool
+
+/-- phase 5: replay through crash × read_wait (`enabledRF`/`stepRF`): `{"a":"wCrashKey","w":i}` = the waiting process of lineage i died -/
+def replayRF (c : Cfg) (rw : Bool) : Nat → RFState → List Json → Bool → Except String ResRF
+  | i, s, [], ok => pure ⟨i, none, s, ok⟩
+  | i, s, j :: js, ok => do
+    let isCrash : Bool := (match j.getObjVal? "a" with | .ok (Json.str "wCrashKey") => true | _ => false)
+    let a : ActionRF ← (if isCrash then do pure (ActionRF.wCrashKey (← nat (← field j "w"))) else do pure (ActionRF.r (← parseActionR j)))
+    if !enabledRF c s a then pure ⟨i, some (i, "not-enabled"), s, ok⟩ else
+    let obsOk : Bool := match a, j.getObjVal? "x" with
+      | .r (.base b), .ok v => (match v.getInt? with | .ok x => observed s.r.b b == some x | .error _ => true)
+      | _, _ => true
+    let keyOk : Bool := match a, j.getObjVal? "w" with
+      | .r .cKey, .ok v => (match v.getNat?, s.r.routq with | .ok w, .key w' :: _ => w == w' | _, _ => true)
+      | _, _ => true
+    if !(obsOk && keyOk) then pure ⟨i, some (i, "value-mismatch"), s, ok⟩ else
+    let s' := stepRF c rw s a
+    let npOk : Bool := match j.getObjVal? "np" with
+      | .ok v => (match v.getNat? with | .ok x => s'.r.b.nprocs == x | .error _ => true)
+      | .error _ => true
+    if !npOk then pure ⟨i, some (i, "nprocs-mismatch"), s', ok⟩ else
+    replayRF c rw (i + 1) s' js (ok && muR c s'.r < muR c s.r && s'.r.b.outq == s'.r.routq.filterMap ROut.proj && maxTasksOk c s'.r.b
+                                  && s'.r.b.recv.all (fun o => s'.r.b.recv.count o ≤ (allOuts c).count o))
 
 /-- multiset equality of two lists of naturals (run-time check (C)) -/
 def sameMultiset (a b : List Nat) : Bool :=
@@ -231,6 +265,8 @@ def handle (req : Json) : Except String Json := do
                ("lost_errs", ofList ofNat s.lostErrs), ("budget_left", ofNat s.budget),
                ("mu_decreasing", Json.bool r.muOk), ("mu0", ofNat (muF c (initF c f))),
                ("within_bound", Json.bool (r.steps ≤ mu c (init c) + 3 * f)),
+               ("fault_inv", Json.bool r.invOk), ("stuck", Json.bool (stuckF c s)),
+               ("code_enabled", ofNat ((codeActions c).filter (fun a => enabledF c s (.base a))).length),
                ("spec_outs", ofList ofNat (allOuts c)), ("spec_errs", ofList ofNat (allErrs c)),
                ("spec_holds", Json.bool lostOk)])
   | "traceR" =>
@@ -254,6 +290,18 @@ def handle (req : Json) : Except String Json := do
                ("within_bound", Json.bool (r.steps ≤ 6 * mu c (init c))),
                ("spec_outs", ofList ofNat (allOuts c)), ("spec_errs", ofList ofNat (allErrs c)),
                ("spec_holds", Json.bool specHolds)])
+  | "traceRF" =>
+    -- phase 5: crash × read_wait; `faults` = number of `wCrashKey` in the trace
+    let tr ← arr (← field req "trace")
+    let f ← nat (← field req "faults")
+    let r ← replayRF c true 0 (initRF c f) tr true
+    let s := r.st.r.b
+    pure (obj [("steps", ofNat r.steps),
+               ("fail", match r.fail with | some (i, why) => obj [("at", ofNat i), ("why", Json.str why)] | none => Json.null),
+               ("state", stateJson c s), ("outcome", outcomeJson (outcome s)), ("done", Json.bool (s.main == .done)),
+               ("key_pending", ofList ofNat r.st.r.keyPending), ("key_wait", ofList ofNat r.st.r.keyWait),
+               ("main_err", Json.bool r.st.mainErr), ("skipped", Json.bool r.st.skipped), ("budget_left", ofNat r.st.budget),
+               ("mu_decreasing", Json.bool r.muOk), ("within_bound", Json.bool (r.steps ≤ 6 * mu c (init c)))])
   | op => throw s!"unknown op {op}"
 
 end Coba.C08.Driver
